@@ -247,5 +247,6 @@ def check(tier):
             ck.add_mutant(name, m, "deriv", "harness.C03", "derivative_job", dict(cases=[(2, 2, False)]))
         else:
             ck.add_mutant(name, m, "missing", "harness.C03", "missing_param_job", dict(cases=[("massaction",)]))
+    ck.validate = ['derivative']
     ck.run()
     return ck.finish(replay=REPLAY)
